@@ -20,6 +20,7 @@ import (
 	"io"
 	"os"
 	"os/exec"
+	"runtime"
 	"runtime/debug"
 	"sort"
 	"strconv"
@@ -42,11 +43,14 @@ var modes = []string{"r-small", "r-big", "wt"}
 
 const afterErrorReads = 6
 
+var bigBuf = make([]byte, 65535+16) // >= the direct-read threshold of ShadowStreamConn.Read
+
 type drained struct {
 	pre    []byte // bytes returned up to and including the call that ended the stream (error or EOF)
 	eof    bool   // that call reported a clean end of stream
 	endErr string
 	after  []byte // bytes returned by further calls after a non-EOF error
+	afterN []int  // ... per call
 	calls  int64
 	stall  bool
 }
@@ -72,17 +76,17 @@ func drain(c netio.Conn, mode string, small int, limit int) (d drained) {
 			_, err := wt.WriteTo(&s2)
 			d.calls++
 			d.after = append(d.after, s2.b...)
+			d.afterN = append(d.afterN, len(s2.b))
 			if err == nil {
 				break
 			}
 		}
 		return
 	}
-	size := small
+	buf := bigBuf[:small]
 	if mode == "r-big" {
-		size = 65535 + 16
+		buf = bigBuf
 	}
-	buf := make([]byte, size)
 	idle := 0
 	for {
 		n, err := c.Read(buf)
@@ -114,6 +118,7 @@ func drain(c netio.Conn, mode string, small int, limit int) (d drained) {
 		n, err := c.Read(buf)
 		d.calls++
 		d.after = append(d.after, buf[:n]...)
+		d.afterN = append(d.afterN, n)
 		if err == io.EOF {
 			break
 		}
@@ -157,7 +162,20 @@ func (e *env) judgeData(side string, G *stream, T []byte, d drained) (fail, deta
 	}
 	total := append(bytes.Clone(d.pre), d.after...)
 	if n := commonPrefix(total, G.Plain); n != len(total) {
-		class := e.classifyAfter(side, G, total[n:], n)
+		// classify the bytes around the point where the output leaves the
+		// genuine data: try every call boundary up to that point, earliest first
+		class := "unrecognised-bytes"
+		pos := len(d.pre)
+		for _, k := range append([]int{0}, d.afterN...) {
+			pos += k
+			if pos > n {
+				break
+			}
+			if cl := e.classifyAfter(side, G, total[pos:], pos); cl != "unrecognised-bytes" {
+				class = cl
+				break
+			}
+		}
 		return "after-error:" + class, fmt.Sprintf("after the read error %q further reads returned %d bytes (% x ...); together with the %d bytes before, byte %d is not what the genuine peer sent (%s); the bytes are %s", d.endErr, len(d.after), head(d.after, 8), len(d.pre), n, byteAt(G.Plain, n), classText[class])
 	}
 	return "", ""
@@ -504,7 +522,7 @@ func runUnit(u unit, thorough bool) *unitResult {
 	streams := map[[12]byte]struct{}{}
 	n := 0
 	for bi, base := range e.Sess {
-		full := bi == 0 || base.V.Name == "X2-otheruser" || (thorough && base.V.Held)
+		full := bi == 0 || (thorough && base.V.Held)
 		if u.Side == "client" && !full {
 			continue // only the clients of these sessions are re-dialled; they receive everything
 		}
@@ -589,6 +607,9 @@ func unitsFor(thorough bool) []unit {
 		for _, sh := range shapes {
 			if sh.Thor && !thorough {
 				continue
+			}
+			if c.Seg && !thorough && sh.Name != "basic3" && sh.Name != "tiny2" {
+				continue // quick: segmented-header configurations on the two small shapes only
 			}
 			out = append(out, unit{ci, sh.Name, "server"})
 			if !c.Fallback { // the fallback is a server-only setting
@@ -691,6 +712,7 @@ func main() {
 		if err != nil {
 			harness.Fatal("%v", err)
 		}
+		runtime.GOMAXPROCS(2)
 		res := runUnit(u, flag.Lookup("tier").Value.String() == "thorough")
 		b, _ := json.Marshal(res)
 		os.Stdout.Write(b)
@@ -712,6 +734,16 @@ func main() {
 		"reads continue for up to 6 calls after the first error, because the statement bounds every byte an endpoint ever returns",
 	}
 	units := unitsFor(thorough)
+	if only := os.Getenv("C02_ONLY"); only != "" { // development aid: run only units whose name contains the string
+		var sel []unit
+		for _, u := range units {
+			if strings.Contains(u.String(), only) {
+				sel = append(sel, u)
+			}
+		}
+		units = sel
+		c.Cap("C02_ONLY=" + only + " restricts the run to a subset of the units")
+	}
 	results := runAll(c, units)
 
 	type agg struct {
